@@ -481,6 +481,7 @@ func (vc *VC) loadMaps(st *State, base string, idx []*Term, t types.Type) Val {
 	case TKSlice:
 		v := Val{K: VSlice, Arr: sel(base+"#arr", SInt), Off: sel(base+"#off", SInt), Len: sel(base+"#len", SInt), Cap: sel(base+"#cap", SInt)}
 		vc.assumeType(st, v, t)
+		vc.refAxiom(base+"#arr", len(idx)) // backing arrays stored in the entry heap were allocated at entry
 		return v
 	}
 	panic(fmt.Sprintf("loadMaps: unsupported type %s at %s", t, base))
